@@ -1,6 +1,7 @@
 /* C15: independent instances may be used concurrently from different threads */
 #include "exec_common.h"
 #include <pthread.h>
+#include <unistd.h>
 
 #define C15_MAXT 16
 #define C15_MAXIT 400
@@ -99,23 +100,57 @@ static unsigned long long c15_one(c15_thr *t, int it)
   }
   return h;
 }
-static void *c15_main(void *arg) { c15_thr *t = (c15_thr *)arg; int i; for (i = 0; i < t->iters; i++) t->dig[i] = c15_one(t, i); return NULL; }
+static void c15_materials(c15_mat *m, unsigned long long seed)
+{
+  int i; tjhandle hc;
+  for (i = 0; i < (int)sizeof(m->img); i++) m->img[i] = (unsigned char)(c03_mix(seed + (unsigned long long)(i / 3)) % 256ULL);
+  hc = tj3Init(TJINIT_COMPRESS); tj3Set(hc, TJPARAM_QUALITY, 80); tj3Set(hc, TJPARAM_SUBSAMP, TJSAMP_420);
+  m->base = NULL; tj3Compress8(hc, m->img, 40, 0, 32, TJPF_RGB, &m->base, &m->nbase);
+  tj3Set(hc, TJPARAM_PROGRESSIVE, 1); m->prog = NULL; tj3Compress8(hc, m->img, 40, 0, 32, TJPF_RGB, &m->prog, &m->nprog);
+  tj3Set(hc, TJPARAM_PROGRESSIVE, 0); { static unsigned char prof[500]; tj3SetICCProfile(hc, prof, sizeof(prof)); } m->icc = NULL; tj3Compress8(hc, m->img, 40, 0, 32, TJPF_RGB, &m->icc, &m->nicc);
+  tj3Destroy(hc);
+}
+static int c15_own = 0;   /* threads-first mode: every thread makes its own materials, so the first use of the library in the process is concurrent */
+static c15_mat c15_mats[C15_MAXT];
+static void *c15_main(void *arg)
+{
+  c15_thr *t = (c15_thr *)arg; int i;
+  if (c15_own) { c15_materials(&c15_mats[t->id], t->seed); t->m = &c15_mats[t->id]; }
+  for (i = 0; i < t->iters; i++) t->dig[i] = c15_one(t, i);
+  return NULL;
+}
 
 /* thr nthreads seed iters */
 static int c15_thr_op(toks_t *t)
 {
   int nt = (int)tl(t, 1), iters = (int)tl(t, 3), i, j; unsigned long long seed = (unsigned long long)tll(t, 2); static c15_thr th[C15_MAXT], ref; static c15_mat m; pthread_t pt[C15_MAXT]; tjhandle hc; const char *bad = NULL; static char msg[300];
   if (nt > C15_MAXT) nt = C15_MAXT; if (iters > C15_MAXIT) iters = C15_MAXIT;
-  /* materials are NOT made before the threads start unless asked to: the first use of the library then happens concurrently */
-  for (i = 0; i < (int)sizeof(m.img); i++) m.img[i] = (unsigned char)(c03_mix(seed + (unsigned long long)(i / 3)) % 256ULL);
-  hc = tj3Init(TJINIT_COMPRESS); tj3Set(hc, TJPARAM_QUALITY, 80); tj3Set(hc, TJPARAM_SUBSAMP, TJSAMP_420);
-  m.base = NULL; tj3Compress8(hc, m.img, 40, 0, 32, TJPF_RGB, &m.base, &m.nbase);
-  tj3Set(hc, TJPARAM_PROGRESSIVE, 1); m.prog = NULL; tj3Compress8(hc, m.img, 40, 0, 32, TJPF_RGB, &m.prog, &m.nprog);
-  tj3Set(hc, TJPARAM_PROGRESSIVE, 0); { static unsigned char prof[500]; tj3SetICCProfile(hc, prof, sizeof(prof)); } m.icc = NULL; tj3Compress8(hc, m.img, 40, 0, 32, TJPF_RGB, &m.icc, &m.nicc);
-  tj3Destroy(hc);
+  (void)hc;
+  if (!strcmp(t->tok[0], "thr0")) {
+    /* run `thr1` in a fresh process: there the very first use of the library (one-time initialisations included) happens in
+       several threads at once; the child's verdict, or its death (sanitizer report), is relayed */
+    char self[512], cmd[900], line[600], last[600] = ""; ssize_t k = readlink("/proc/self/exe", self, sizeof(self) - 1); FILE *f; int st, gotO = 0;
+    if (k <= 0) { printf("R skip noself\n"); return 1; }
+    self[k] = 0;
+    snprintf(cmd, sizeof(cmd), "printf 'thr1 %d %llu %d\\n' | timeout -s KILL 25 '%s' 2>&1", nt, seed, iters, self);
+    f = popen(cmd, "r");
+    if (!f) { printf("R skip nopopen\n"); return 1; }
+    printf("R skip fresh process, %d threads x %d\n", nt, iters);
+    while (fgets(line, sizeof(line), f)) {
+      if (!strncmp(line, "O ", 2) && !gotO) { fputs(line, stdout); gotO = 1; }
+      else if (strstr(line, "WARNING: ThreadSanitizer") || strstr(line, "ERROR: AddressSanitizer") || strstr(line, "runtime error")) { strncpy(last, line, sizeof(last) - 1); }
+    }
+    st = pclose(f);
+    if (!gotO) { char *nl = strchr(last, '\n'); if (nl) *nl = 0; printf("O fail thr: fresh process with concurrent first use of the library died (status %d): %s\n", st, last[0] ? last : "no verdict"); }
+    else if (last[0] && gotO) { /* verdict printed, but a report appeared as well */ }
+    return 1;
+  }
+  c15_own = !strcmp(t->tok[0], "thr1");
+  if (!c15_own) c15_materials(&m, seed);
   for (i = 0; i < nt; i++) { memset(&th[i], 0, sizeof(th[i])); th[i].id = i; th[i].iters = iters; th[i].seed = seed; th[i].m = &m; }
   for (i = 0; i < nt; i++) pthread_create(&pt[i], NULL, c15_main, &th[i]);
   for (i = 0; i < nt; i++) pthread_join(pt[i], NULL);
+  if (c15_own) c15_materials(&m, seed);
   /* the same operations, one thread at a time */
   for (i = 0; i < nt && !bad; i++) {
     if (th[i].bad) { bad = th[i].why; break; }
@@ -133,6 +168,6 @@ static int c15_thr_op(toks_t *t)
 
 static int dispatch_c15(toks_t *t)
 {
-  if (!strcmp(t->tok[0], "thr") && t->n >= 4) return c15_thr_op(t);
+  if ((!strcmp(t->tok[0], "thr") || !strcmp(t->tok[0], "thr0") || !strcmp(t->tok[0], "thr1")) && t->n >= 4) return c15_thr_op(t);
   return 0;
 }
